@@ -30,7 +30,8 @@ class Parenthesis(Token):
                                  Separator) and self.get_name == ')':
             from .operand import Empty
             Empty().ast(tokens, stack, builder)
-        if self.has_start and tokens and isinstance(tokens[-1], Operand):
+        if self.has_start and tokens and (
+                isinstance(tokens[-1], Operand) or tokens[-1].name == '%'):
             raise TokenError
         super(Parenthesis, self).ast(tokens, stack, builder)
         if self.has_start:
